@@ -139,6 +139,38 @@ pub fn gen_step(rng: &mut Rng, i: usize, s: &State, flavour: Flavour, max_steps:
         }
     };
     let mut tx = single(op, rng);
+    if flavour == Flavour::Edits && rng.chance(0.15) {
+        // several calls in one transaction, the later ones on the darts the first one touched
+        // (a call must see the pending writes of its predecessors)
+        if let Some(x) = match &tx.ops[0] {
+            Op::Link { l, .. } | Op::Sew { l, .. } | Op::Unlink { l, .. } | Op::Unsew { l, .. } => Some(*l),
+            _ => None,
+        } {
+            let mut cur = s.clone();
+            let mut ops = vec![tx.ops[0].clone()];
+            for _ in 0..1 + rng.below(2) {
+                match ops.last().unwrap() {
+                    Op::Link { i, l, r } | Op::Sew { i, l, r } => {
+                        let _ = cur.link(*i, *l, *r);
+                    }
+                    Op::Unlink { i, l } | Op::Unsew { i, l } => {
+                        let _ = cur.unlink(*i, *l);
+                    }
+                    _ => {}
+                }
+                let in_use: Vec<u32> = (1..cur.n() as u32).filter(|&d| !cur.unused[d as usize]).collect();
+                let y = if rng.chance(0.7) { x } else { *rng.pick(&in_use) };
+                let mut cands = crate::props::c07::edits_involving(&cur, y, &in_use);
+                if cands.is_empty() {
+                    break;
+                }
+                ops.push(cands.swap_remove(rng.below(cands.len())));
+            }
+            if ops.len() > 1 {
+                tx = crate::ops::Tx { runner: if rng.chance(0.5) { crate::ops::Runner::WithErr } else { crate::ops::Runner::ControlRetry }, ops, f1: vec![], f2: vec![], f1_attempt: 0 };
+            }
+        }
+    }
     if s.kinds != 0 && matches!(flavour, Flavour::Sews | Flavour::Edits | Flavour::Queries) && rng.chance(0.12) {
         tx.f1 = vec![1 + rng.below(5) as u32];
     }
